@@ -58,7 +58,7 @@ def _profile_functions(fn_call):
 def _new_stats(tier):
     return dict(requires=0, ground_true=0, obligations=0, discharged=0, unknown=0, unknown_labels=[], solver_s=0.0,
                 max_query_s=0.0, queries=0, samples=[], candidates=[], paths_with_requires=0, paths_witnessed=0,
-                paths_infeasible=0, paths_unwitnessed=0, tier=tier)
+                paths_infeasible=0, paths_unwitnessed=0, paths_ground_only=0, dropped_infeasible=0, tier=tier)
 
 
 def run_case(idx):
@@ -265,7 +265,7 @@ def main(argv=None):
     for r in results:
         st = r["stats"]
         for k in ("requires", "ground_true", "obligations", "discharged", "unknown", "queries", "paths_with_requires",
-                  "paths_witnessed", "paths_infeasible", "paths_unwitnessed"):
+                  "paths_witnessed", "paths_infeasible", "paths_unwitnessed", "paths_ground_only", "dropped_infeasible"):
             tot[k] += st[k]
         tot["solver_s"] += st["solver_s"]
         tot["max_query_s"] = max(tot["max_query_s"], st["max_query_s"])
@@ -286,10 +286,10 @@ def main(argv=None):
             problems.append(f"{r['id']}: unsupported/limit paths {r['messages']}")
         if st["unknown"]:
             problems.append(f"{r['id']}: {st['unknown']} obligations returned unknown {st['unknown_labels'][:3]}")
-        if st["requires"] == 0 or (st["paths_witnessed"] == 0 and st["obligations"] > 0):
-            problems.append(f"{r['id']}: vacuous (requires={st['requires']}, witnessed paths={st['paths_witnessed']})")
-        elif st["requires"] > 0 and st["paths_with_requires"] > 0 and st["paths_witnessed"] == 0:
-            problems.append(f"{r['id']}: vacuous (no satisfiable path reached an obligation)")
+        if st["requires"] == 0 or (st["paths_witnessed"] + st["paths_ground_only"] == 0):
+            problems.append(f"{r['id']}: vacuous (requires={st['requires']}, witnessed paths={st['paths_witnessed']}, ground-only paths={st['paths_ground_only']})")
+        if st["paths_unwitnessed"]:
+            problems.append(f"{r['id']}: satisfiability of {st['paths_unwitnessed']} path condition(s) unknown")
     # ---------------------------------------------------------------- conformance
     conf_checked, conf_bad = 0, []
     pinned = {r["id"]: r["pinned"] for r in results if "pinned" in r}
@@ -348,8 +348,8 @@ def main(argv=None):
         obligations=tot["obligations"], discharged=tot["discharged"], unknown=tot["unknown"], solver_queries=tot["queries"],
         counterexamples=len(seen_keys), counterexamples_reproduced=len(violations) + sum(len(v[1]) for v in known_hits.values()),
         known_findings_matched=sorted(known_hits), paths_with_requires=tot["paths_with_requires"],
-        paths_witnessed_satisfiable=tot["paths_witnessed"], paths_infeasible=tot["paths_infeasible"],
-        paths_unwitnessed=tot["paths_unwitnessed"],
+        paths_witnessed_satisfiable=tot["paths_witnessed"], paths_infeasible=tot["paths_infeasible"], obligations_dropped_on_infeasible_paths=tot["dropped_infeasible"],
+        paths_unwitnessed=tot["paths_unwitnessed"], paths_with_ground_checks_only=tot["paths_ground_only"],
         solver=f"z3 {__import__('z3').get_version_string()}", solver_s=round(tot["solver_s"], 2), max_query_s=round(tot["max_query_s"], 2),
         functions_encoded=sorted(functions), bounds=getattr(H, "BOUNDS", {}).get(a.tier, ""), outside=getattr(H, "OUTSIDE", ""),
         shim_conformance=dict(cases_checked=conf_checked, disagreements=len(conf_bad)),
